@@ -1400,6 +1400,31 @@ func c09Run(r *mon.Run) {
 		proj(&project{Root: `{"x": @m}`, Types: []typeDef{{Name: "@m", Text: "{\n  \"p\": @m | @zz,\n  \"q\": @m | @yy\n}"}}}, "pinned")
 		proj(&project{Root: `1 // {or: [{type: "integer", min: 1}, {type: "string", minLength: 2}, "@a"]}`, Types: []typeDef{{Name: "@a", Text: `"a" // {or: [{type: "string"}, {type: "null"}]}`}}}, "pinned")
 	}
+	// (a2) places where several candidates exist and one is named or listed: the choice must not follow a map
+	if r.Shard == 1%mon.LogicalShards {
+		// a key shortcut whose type is a choice over several kinds that are not strings: which kind the refusal names
+		for _, alts := range [][]string{{"12", "true", "[1]"}, {"true", "12"}, {"[1]", "{}", "1.5", "null"}, {`"s"`, "12", "false"}} {
+			var types []typeDef
+			var names []string
+			for i, a := range alts {
+				n := fmt.Sprintf("@k%d", i)
+				types = append(types, typeDef{Name: n, Text: a})
+				names = append(names, n)
+			}
+			types = append(types, typeDef{Name: "@k", Text: strings.Join(names, " | ")})
+			proj(&project{Root: "{ @k: 1 }", Types: types}, "key shortcut typed by a choice over several kinds")
+			proj(&project{Root: "{\n  \"a\": { @k: 1 },\n  @k: 2\n}", Types: types}, "key shortcut typed by a choice over several kinds")
+		}
+		// several or rule-sets that name types mentioned nowhere else: the order of UsedUserTypes()
+		ut := []typeDef{{Name: "@t1", Text: "1"}, {Name: "@t2", Text: `"s"`}, {Name: "@t3", Text: "true"}, {Name: "@t4", Text: "[1]"}, {Name: "@t5", Text: "{}"}}
+		proj(&project{Root: `1 // {or: [{type: "@t1", nullable: true}, {type: "@t2", nullable: true}, {type: "@t3", nullable: true}, {type: "@t4", nullable: true}, {type: "@t5", nullable: true}]}`, Types: ut}, "or rule-sets naming types mentioned nowhere else")
+		proj(&project{Root: "{\n  \"a\": 1, // {or: [{type: \"@t5\", nullable: true}, {type: \"@t1\", nullable: true}]}\n  \"b\": \"s\", // {or: [{type: \"@t4\", nullable: true}, {type: \"@t2\", nullable: true}]}\n  \"c\": true // {or: [{type: \"@t3\", nullable: true}, {type: \"string\"}]}\n}", Types: ut}, "or rule-sets naming types mentioned nowhere else")
+		proj(&project{Root: `{} // {or: [{type: "object", additionalProperties: "@t3"}, {type: "@t2", nullable: true}, {type: "@t1", nullable: true}]}`, Types: ut}, "or rule-sets naming types mentioned nowhere else")
+		// several key shortcuts, some with the same value schema: the order of the alternatives in the OpenAPI text
+		kt := []typeDef{{Name: "@k1", Text: `"a1"`}, {Name: "@k2", Text: `"b2"`}, {Name: "@k3", Text: `"c3"`}, {Name: "@k4", Text: `"d4"`}, {Name: "@k5", Text: `"e5"`}}
+		proj(&project{Root: "{\n  @k1: 10,\n  @k2: \"x\",\n  @k3: true,\n  @k4: 10,\n  @k5: [1]\n}", Types: kt}, "several key shortcuts, two with the same value schema")
+		proj(&project{Root: "{\n  @k1: 10, // {min: 1}\n  @k2: 10, // {min: 1}\n  @k3: 2.5,\n  @k4: \"s\",\n  @k5: 10 // {min: 1}\n}", Types: kt}, "several key shortcuts, two with the same value schema")
+	}
 	// (b) the corpus: every literal through every entry-point family
 	corpus := gen.Corpus(r.Repo)
 	r.CountMax("max:corpus_literals", int64(len(corpus)))
